@@ -287,8 +287,27 @@ where
 pub struct ReadableSystemTime(pub SystemTime);
 impl Display for ReadableSystemTime {
     fn fmt(&self, f: &mut std::fmt::Formatter<'_>) -> std::fmt::Result {
-        let format = DateTime::<Utc>::from(self.0).format("%Y-%m-%d %H:%M:%S%.3f %Z (%s%.9f)");
-        Display::fmt(&format, f)
+        // `DateTime::<Utc>::from(SystemTime)` panics for instants outside of chrono's range, so
+        // convert explicitly and fall back to the raw value when chrono cannot represent it.
+        let (secs, nanos) = match self.0.duration_since(SystemTime::UNIX_EPOCH) {
+            Ok(d) => (i64::try_from(d.as_secs()).ok(), d.subsec_nanos()),
+            Err(e) => {
+                let d = e.duration();
+                let secs = i64::try_from(d.as_secs()).ok();
+                if d.subsec_nanos() == 0 {
+                    (secs.map(|s| -s), 0)
+                } else {
+                    (secs.map(|s| -s - 1), 1_000_000_000 - d.subsec_nanos())
+                }
+            }
+        };
+        match secs.and_then(|secs| DateTime::<Utc>::from_timestamp(secs, nanos)) {
+            Some(date_time) => {
+                let format = date_time.format("%Y-%m-%d %H:%M:%S%.3f %Z (%s%.9f)");
+                Display::fmt(&format, f)
+            }
+            None => write!(f, "{:?}", self.0),
+        }
     }
 }
 impl Debug for ReadableSystemTime {
